@@ -8,6 +8,8 @@
 //!                    restart                             (directive) drop the store, open a new one on the directory
 //!                    ai <id> w|d ...                     create the async future (= issue: version + lock ref taken)
 //!                    ax <id>                             drive that future to completion
+//!                    axf <id> <fault>                    the same, with (fault=1) a non-empty directory standing at the destination
+//!                                                        path while the body runs (the rename of a write fails); answers ok | err io
 //! model `c19mup` : `lightning::util::persist::MonitorUpdatingPersister` over a recording, fault-injecting
 //!                  in-memory `KVStoreSync` (RecStore), fed with REAL monitors/updates harvested from a
 //!                  two-node network; ops:
@@ -121,6 +123,8 @@ fn kv_model(args: &Args) {
 	let n_ops = if args.thorough { 300 } else { 150 };
 	const BADLIST: &str = "err Other:Failed_to_list_keys";
 	for seq in 0..n_seq {
+		// bound the search: once 20 concrete failing inputs are recorded, more sequences add nothing (check shows 20)
+		if rec.oracle_failures.len() >= 20 { rec.notes.insert("stopped-early".into(), format!("after {} of {} sequences: 20 failing inputs recorded", seq, n_seq)); break; }
 		let v2 = seq % 2 == 1;
 		let dir = scratch.join(format!("{}-{}", if v2 { "v2" } else { "v1" }, seq));
 		let mut store = StoreE::open(v2, &dir);
@@ -129,6 +133,8 @@ fn kv_model(args: &Args) {
 		let mut reference: BTreeMap<(String, String, String), Vec<u8>> = BTreeMap::new();
 		// namespaces in which a file with an invalid (non-artifact) name was planted: list must refuse
 		let mut poisoned: HashSet<(String, String)> = HashSet::new();
+		// files planted behind the store's back (relative paths as `walk_files` prints them)
+		let mut planted: HashSet<String> = HashSet::new();
 		// a small per-sequence pool so that overwrite / read-after-write / remove-of-present are frequent
 		let pp: Vec<String> = (0..2).map(|_| rng.pick(&prim).clone()).collect();
 		let sp: Vec<String> = (0..2).map(|_| rng.pick(&sec).clone()).collect();
@@ -140,9 +146,9 @@ fn kv_model(args: &Args) {
 			let mut p = rng.pick(&pp).clone();
 			let mut s = if p.is_empty() { String::new() } else { rng.pick(&sp).clone() };
 			let mut k = rng.pick(&kp).clone();
-			let what = rng.below(112);
+			let what = rng.below(117);
 			// ---- fault injection: leftovers of an earlier crash (tmp / trash artifacts), foreign files, restart
-			if what >= 106 {
+			if what >= 106 && what < 112 {
 				let d = |x: &str| -> String { if x.is_empty() { if v2 { "[empty]".to_string() } else { String::new() } } else { x.to_string() } };
 				let (d1, d2) = (d(&p), d(&s));
 				let kind = rng.below(20);
@@ -154,6 +160,7 @@ fn kv_model(args: &Args) {
 				let _ = std::fs::create_dir_all(&path);
 				path.push(&name);
 				std::fs::write(&path, &val).expect("plant");
+				planted.insert([d1.as_str(), d2.as_str(), name.as_str()].iter().filter(|x| !x.is_empty()).cloned().collect::<Vec<_>>().join("/"));
 				let hd = |x: &str| if x.is_empty() { "-".to_string() } else { hexs(x) };
 				rec.directive(&format!("plant {} {} {} {}", hd(&d1), hd(&d2), hexs(&name), hex(&val)));
 				if kind == 14 || kind == 15 { reference.insert((p.clone(), s.clone(), k.clone()), val.clone()); }
@@ -162,8 +169,94 @@ fn kv_model(args: &Args) {
 				if rng.chance(1, 2) { drop(store); store = StoreE::open(v2, &dir); rec.directive("restart"); }
 				continue;
 			}
+			// ---- the async API under I/O FAULTS: 2-4 writes/removes on ONE key issued in order, executed in a scripted
+			// (often reversed) order; while a body runs a non-empty directory may stand at the destination path, so that the
+			// `fs::rename` of a write fails (a remove then sees `!is_file()` and succeeds without touching anything)
+			if what >= 112 {
+				let dn = |x: &str| -> String { if x.is_empty() { if v2 { "[empty]".to_string() } else { String::new() } } else { x.to_string() } };
+				let mut dest = dir.clone();
+				if !dn(&p).is_empty() { dest.push(dn(&p)); }
+				if !dn(&s).is_empty() { dest.push(dn(&s)); }
+				dest.push(&k);
+				if rng.chance(1, 2) {
+					// make room for the fault: a directory can only stand where no file is
+					let r = guarded(AssertUnwindSafe(|| store.sync().remove(&p, &s, &k, false)));
+					let ans = match r { Ok(Ok(())) => "ok".to_string(), Ok(Err(e)) => canon_err(Ok(e)), Err(pm) => canon_err(Err(pm)) };
+					reference.remove(&(p.clone(), s.clone(), k.clone()));
+					if ans != "ok" { rec.oracle_fail(format!("{} store is not a map: seq {} remove before a fault block answered `{}`", tag, seq, ans)); }
+					rec.case(&format!("d {} {} {} 0", hexs(&p), hexs(&s), hexs(&k)), &ans, &format!("{}:remove:ok", tag), true);
+				}
+				let m = 2 + rng.below(3) as usize;
+				let mut futs: Vec<Option<AsyncFut>> = vec![];
+				let mut bodies: Vec<Option<Vec<u8>>> = vec![];
+				let mut sched = String::new();
+				let mut oks: Vec<usize> = vec![];
+				let mut pending: Vec<usize> = vec![];
+				// events: issues in id order, each body some time after its issue; mostly all issues first (then the bodies
+				// newest-first or permuted), sometimes a body completes BEFORE later operations are issued (then the lock entry
+				// of the path may have been dropped by clean_locks in between, or must NOT have been: in-flight references)
+				let interleave = rng.chance(1, 3);
+				let newest_first = rng.chance(1, 2);
+				let mut interleaved = false;
+				while futs.len() < m || !pending.is_empty() {
+					if futs.len() < m && (pending.is_empty() || !interleave || rng.chance(1, 2)) {
+						let id = futs.len();
+						let is_w = rng.chance(3, 4);
+						let vl = 1 + rng.below(12) as usize; let v = rng.bytes(vl);
+						let lazy = rng.chance(1, 2);
+						let line = if is_w { format!("ai {} w {} {} {} {}", id, hexs(&p), hexs(&s), hexs(&k), hex(&v)) } else { format!("ai {} d {} {} {} {}", id, hexs(&p), hexs(&s), hexs(&k), lazy as u8) };
+						let created = guarded(AssertUnwindSafe(|| if is_w { store.write_async(&p, &s, &k, v.clone()) } else { store.remove_async(&p, &s, &k, lazy) }));
+						let ans = match created { Ok(f) => { futs.push(Some(f)); pending.push(id); "issued".to_string() }, Err(pm) => { futs.push(None); canon_err(Err(pm)) } };
+						if ans != "issued" { rec.oracle_fail(format!("{} async issue: seq {} `{}` answered `{}` expected `issued`", tag, seq, trunc_s(&line), ans)); }
+						sched.push_str(&format!("issue#{}={} ", id, if is_w { format!("write({})", hex(&v)) } else { "remove".to_string() }));
+						bodies.push(if is_w { Some(v) } else { None });
+						rec.case(&line, &ans, &format!("{}:fault-issue", tag), true);
+						continue;
+					}
+					if futs.len() < m { interleaved = true; }
+					let pi = if newest_first { pending.len() - 1 } else { rng.below(pending.len() as u64) as usize };
+					let id = pending.remove(pi);
+					let fault = rng.chance(1, 2) && !dest.exists();
+					if fault { std::fs::create_dir_all(dest.join("blocker")).expect("plant the blocking directory"); }
+					let f = futs[id].take().unwrap();
+					let r = guarded(AssertUnwindSafe(|| rt.block_on(f)));
+					if fault { std::fs::remove_dir_all(&dest).expect("remove the blocking directory"); }
+					let ans = match r { Ok(Ok(())) => "ok".to_string(), Ok(Err(_)) => "err io".to_string(), Err(pm) => canon_err(Err(pm)) };
+					// oracle (independent of the Lean model): an operation older than one that already returned Ok is skipped
+					// (Ok); otherwise a write whose rename was blocked fails, everything else succeeds
+					let stale = oks.iter().any(|j| *j > id);
+					let expect = if !stale && fault && bodies[id].is_some() { "err io" } else { "ok" };
+					sched.push_str(&format!("exec#{}{}->{} ", id, if fault { "[rename blocked]" } else { "" }, ans));
+					if ans != expect { rec.oracle_fail(format!("{} async under I/O fault: seq {} key {}/{}/{} schedule `{}`: completion of op {} answered `{}` expected `{}`", tag, seq, p, s, trunc_s(&k), sched.trim(), id, ans, expect)); }
+					if ans == "ok" { oks.push(id); }
+					rec.case(&format!("axf {} {}", id, fault as u8), &ans, &format!("{}:fault-complete:{}:{}{}{}", tag, if fault { "blocked" } else { "free" }, ans.replace(' ', "-"), if stale { ":stale" } else { "" }, if interleaved { ":issue-exec-interleaved" } else { "" }), true);
+				}
+				// oracle (independent of the Lean model): the LAST ISSUED operation among those that RETURNED Ok is what read
+				// and list show; if none returned Ok nothing changed
+				let key = (p.clone(), s.clone(), k.clone());
+				if let Some(mx) = oks.iter().max() { match &bodies[*mx] { Some(v) => { reference.insert(key.clone(), v.clone()); }, None => { reference.remove(&key); } } }
+				let r = guarded(AssertUnwindSafe(|| store.sync().read(&p, &s, &k)));
+				let ans = match r { Ok(Ok(v)) => format!("val {}", hex(&v)), Ok(Err(e)) => canon_err(Ok(e)), Err(pm) => canon_err(Err(pm)) };
+				let expect = match reference.get(&key) { Some(v) => format!("val {}", hex(v)), None => "err NotFound".into() };
+				if ans != expect { rec.oracle_fail(format!("{} async under I/O fault: seq {} key {}/{}/{} schedule `{}`: read answers `{}` but the last issued operation that returned Ok ({}) says `{}`", tag, seq, p, s, trunc_s(&k), sched.trim(), trunc_s(&ans), oks.iter().max().map(|x| format!("op {}", x)).unwrap_or("none: contents before the block".into()), trunc_s(&expect))); }
+				rec.case(&format!("r {} {} {}", hexs(&p), hexs(&s), hexs(&k)), &ans, &format!("{}:fault-final-read:{}", tag, ans.split_whitespace().take(if ans.starts_with("err") { 2 } else { 1 }).collect::<Vec<_>>().join("-")), true);
+				if !poisoned.contains(&(p.clone(), s.clone())) {
+					let canon = |mut l: Vec<String>| { let mut h: Vec<String> = l.drain(..).map(|x| hexs(&x)).collect(); h.sort(); format!("names {}", if h.is_empty() { "-".to_string() } else { h.join(",") }) };
+					let r = guarded(AssertUnwindSafe(|| store.sync().list(&p, &s)));
+					let ans = match r { Ok(Ok(l)) => canon(l), Ok(Err(e)) => canon_err(Ok(e)), Err(pm) => canon_err(Err(pm)) };
+					let expect = canon(reference.keys().filter(|x| x.0 == p && x.1 == s).map(|x| x.2.clone()).collect());
+					if ans != expect { rec.oracle_fail(format!("{} async under I/O fault: seq {} namespace {}/{} schedule `{}`: list answers `{}` but the operations that returned Ok say `{}`", tag, seq, p, s, sched.trim(), trunc_s(&ans), trunc_s(&expect))); }
+					rec.case(&format!("l {} {}", hexs(&p), hexs(&s)), &ans, &format!("{}:fault-final-list", tag), true);
+				}
+				// oracle (independent of the Lean model): no tmp file of the store survives completed operations — neither that of
+				// a write skipped as stale nor that of a write whose rename failed (planted leftovers excepted)
+				{ let mut fl = vec![]; walk_files(&dir, "", &mut fl);
+				  for f in fl { if f.ends_with(".tmp") && !planted.contains(&f) { rec.oracle_fail(format!("{} async under I/O fault: seq {} key {}/{}/{} schedule `{}`: tmp file `{}` left behind after all bodies completed", tag, seq, p, s, trunc_s(&k), sched.trim(), trunc_s(&f))); } } }
+				rec.case("fs", &files_line(&dir), &format!("{}:files-after-fault", tag), true);
+				continue;
+			}
 			// ---- the async API: issue a few writes/removes (versions taken now), complete them in a scripted order
-			if what >= 100 {
+			if what >= 100 && what < 106 {
 				let m = 2 + rng.below(4) as usize;
 				let two_keys = rng.chance(1, 3);
 				let k2 = rng.pick(&kp).clone();
@@ -263,7 +356,7 @@ fn kv_model(args: &Args) {
 		drop(store);
 		let _ = std::fs::remove_dir_all(&dir);
 	}
-	rec.notes.insert("rule".into(), "PRNG op sequences over a small pool of namespaces/keys (empty, 120-char, invalid: empty key, empty primary with secondary, bad characters, 121 chars) so that overwrite, remove-of-missing and list-after-remove are frequent; alternating FilesystemStore (v1) and FilesystemStoreV2 in fresh scratch directories; `fs` = every file of the data directory (compared with the model's file system, artifacts included); planted leftovers of an earlier crash (`<key>.<n>.tmp`, `<key>.<n>.trash`, `<key>.tmp`, a foreign file with a key name, a file with an invalid name) with and without a restart of the store; async blocks: 2-5 KVStore::write/remove futures created in order (versions taken at creation) and driven to completion one by one in a PRNG permutation on a current-thread tokio runtime, then read back; every op line is a case".into());
+	rec.notes.insert("rule".into(), "PRNG op sequences over a small pool of namespaces/keys (empty, 120-char, invalid: empty key, empty primary with secondary, bad characters, 121 chars) so that overwrite, remove-of-missing and list-after-remove are frequent; alternating FilesystemStore (v1) and FilesystemStoreV2 in fresh scratch directories; `fs` = every file of the data directory (compared with the model's file system, artifacts included); planted leftovers of an earlier crash (`<key>.<n>.tmp`, `<key>.<n>.trash`, `<key>.tmp`, a foreign file with a key name, a file with an invalid name) with and without a restart of the store; async blocks: 2-5 KVStore::write/remove futures created in order (versions taken at creation) and driven to completion one by one in a PRNG permutation on a current-thread tokio runtime, then read back; fault blocks: 2-4 futures on ONE key, executed in reversed / permuted order (in a third of the blocks bodies complete before later operations are issued), each with probability 1/2 while a non-empty directory blocks the destination path (the write's rename fails with an I/O error), oracle: an operation older than one that returned Ok is skipped, and read / list / the directory show the LAST ISSUED operation among those that RETURNED Ok; every op line is a case".into());
 	rec.notes.insert("concurrency".into(), "completion orders of the async API are scripted (body granularity); true thread interleavings inside bodies, rename atomicity and fsync are not exhibited; see model c19mt (validated, not proved)".into());
 	rec.finish();
 }
